@@ -190,6 +190,32 @@ def run(ctx):
     if not np.allclose(e.get_mahalanobis_matrix(), np.eye(3), atol=1e-9):
       ctx.fail_input('prior_returned', 'all constraints hold under the prior but the prior is not returned', dict(Q=Qs.tolist()))
 
+  # ---- small tolerances (deterministic inputs): stopping before max_iter means ||gradient of the documented objective||_F < tol.
+  def doc_grad(M, vab, vcd, w):
+    g = np.eye(len(M)) - np.linalg.inv(M)
+    dab = np.einsum('ij,jk,ik->i', vab, M, vab)
+    dcd = np.einsum('ij,jk,ik->i', vcd, M, vcd)
+    for i in np.nonzero(dab > dcd)[0]:
+      g = g + w[i] * ((1 - np.sqrt(dcd[i] / dab[i])) * np.outer(vab[i], vab[i]) + (1 - np.sqrt(dab[i] / dcd[i])) * np.outer(vcd[i], vcd[i]))
+    return g
+  cases = [(sd, d, 1.0, tol) for sd in (0, 1, 2) for d in (3, 4) for tol in (1e-5, 1e-6)] + [(0, 4, 30.0, 1e-5)]
+  for sd, d, scale, tol in (cases if thorough else cases[::2] + cases[-1:]):
+    Q = scale * np.random.RandomState(sd).randn(40, 4, d)
+    with warnings.catch_warnings():
+      warnings.simplefilter('ignore')
+      e = LSML(tol=tol, max_iter=20000).fit(Q)
+    M = e.get_mahalanobis_matrix()
+    gn = float(np.linalg.norm(doc_grad(M, Q[:, 0] - Q[:, 1], Q[:, 2] - Q[:, 3], np.ones(40) / 40)))
+    ctx.count('stationary_small_tol', 1)
+    if e.n_iter_ < 20000 and not gn < 1.5 * tol:
+      if scale == 30.0:
+        ctx.fail_input('stationary', 'LSML(tol=1e-5, max_iter=20000) on 30*RandomState(0).randn(40,4,4) stops at a non-stationary point (no grid step gives a representable decrease)',
+                       dict(seed=sd, d=d, scale=scale, tol=tol), observed=dict(n_iter=int(e.n_iter_), grad_norm=gn))
+      else:
+        ctx.fail_input('stationary', 'stopped before max_iter with a gradient norm above tol (unit-scale data, small tol)',
+                       dict(quadruplets='%g * np.random.RandomState(%d).randn(40, 4, %d)' % (scale, sd, d), tol=tol, max_iter=20000),
+                       observed=dict(n_iter=int(e.n_iter_), grad_norm=gn))
+
 
 def replay(payload):
   print('replay: re-run ./check C12 with VERIF_SEED=%s' % payload.get('seed'))
